@@ -160,6 +160,7 @@ dm_harness!(dm_usize_3, usize, 3);
 dm_harness!(dm_isize_3, isize, 3);
 dm_harness!(dm_usize_1, usize, 1);
 dm_harness!(dm_isize_2, isize, 2);
+dm_harness!(dm_usize_2, usize, 2);
 dm_harness!(dm_usize_4, usize, 4);
 dm_harness!(dm_isize_4, isize, 4);
 
@@ -182,6 +183,13 @@ pub fn c18_metrics_isize_n3() {
 #[cfg_attr(kani, kani::unwind(4))]
 pub fn c18_metrics_usize_n1() {
     dm_usize_1();
+}
+
+// @verif prop=C18 tier=quick fl=f2 role=metrics/usize t=600 mem=10
+#[cfg_attr(kani, kani::proof)]
+#[cfg_attr(kani, kani::unwind(6))]
+pub fn c18_metrics_usize_n2() {
+    dm_usize_2();
 }
 
 // @verif prop=C18 tier=quick fl=f2 role=metrics/isize t=600 mem=10
